@@ -231,7 +231,19 @@ type Job struct {
 	Prefix string   `json:"prefix"`
 	Focus  int      `json:"focus"`
 	Events []string `json:"events"`
-	Menu   []string `json:"menu"` // event alphabet of this exploration (empty: allEvents)
+	Menu   []string `json:"menu"`   // event alphabet of this exploration (empty: allEvents)
+	Resume bool     `json:"resume"` // second process of a history with a restart: state is in Dir/resume.json
+}
+
+// what a worker that ends with a restart event leaves for the process that continues the history
+type resumeFile struct {
+	Blocks    []string `json:"blocks"` // every block delivered so far, in delivery order
+	Pos       int      `json:"pos"`
+	CfgMin    uint64   `json:"cfg_min"`
+	CfgMap    uint32   `json:"cfg_map"`
+	Remaining []string `json:"remaining"`
+	Res       Result   `json:"res"`
+	Damage    string   `json:"damage"` // "<type>:<how>" of the restart event
 }
 
 type Step struct {
@@ -249,6 +261,7 @@ type Result struct {
 	Oracles  int      `json:"oracles"` // number of oracle evaluations with the index enabled
 	Nontriv  int      `json:"nontriv"` // ... of which the expected projection of the focus address was non-empty
 	MapRep   bool     `json:"map_rep"` // the focus record was in map representation at some point
+	Restart  bool     `json:"restart"` // the process ended with a restart event: continue in a fresh process
 	Reorgs   int      `json:"reorgs"`
 }
 
@@ -285,6 +298,9 @@ type world struct {
 	cfgMin  uint64   // CFG.AllBalances.MinValue as configured now
 	effMin  uint64   // the value in force: configured when the index was last switched on
 	cfgMap  uint32   // CFG.AllBalances.UseMapCnt as configured now
+	blocks  []string // delivered blocks (hex), for a process that continues the history
+	closed  bool
+	damage  string
 	saved   [32]byte // tip at which balances were last saved (LAST_SAVED_FNAME)
 	res     *Result
 	pos     int // event position (funding allocation, block tags)
@@ -444,6 +460,7 @@ func (w *world) step(name, result string) {
 // keeps common.Last in step as the client's LocalAcceptBlock does, feeds the
 // reference model and runs the oracle.
 func (w *world) deliver(name string, b *reftx.Block) {
+	w.blocks = append(w.blocks, hex.EncodeToString(b.Bytes()))
 	r := w.e.Deliver(b.Bytes())
 	common.Last.Mutex.Lock()
 	common.Last.Block = w.e.Ch.LastBlock()
@@ -566,6 +583,56 @@ func (w *world) sparseSpends(u refchain.UTXO, coins []xcoin) (l []*reftx.Tx) {
 	return
 }
 
+// restart:<type>:<how> - the node saves the balance index at shutdown (SaveBalances writes five
+// per-type files from goroutines), the file of one address type is then missing or truncated
+// (how = ok | rm | cut0 | cuthalf | cutlast: a crash during the save), and the node is started
+// again with an unchanged tip: a FRESH process does what client/main.go does at start-up
+// (LoadBalances, on error LoadBalancesFromUtxo). This process only does the shutdown part.
+func (w *world) restart(name string) {
+	f := strings.Split(name, ":")
+	if len(f) != 3 {
+		hfail("bad event %q", name)
+	}
+	err := wallet.SaveBalances()
+	r := "saved"
+	if err != nil {
+		r = err.Error()
+		if !strings.Contains(r, "already on disk") {
+			hfail("SaveBalances: %v", err)
+		}
+	}
+	dirs, _ := os.ReadDir(common.GocoinHomeDir + wallet.BALANCES_SUBDIR)
+	if len(dirs) != 1 {
+		hfail("expected one folder under %s, found %d", wallet.BALANCES_SUBDIR, len(dirs))
+	}
+	fn := common.GocoinHomeDir + wallet.BALANCES_SUBDIR + "/" + dirs[0].Name() + "/" + f[1]
+	b, err := os.ReadFile(fn)
+	if err != nil {
+		hfail("%v", err)
+	}
+	switch f[2] {
+	case "ok":
+	case "rm":
+		err = os.Remove(fn)
+	case "cut0":
+		err = os.WriteFile(fn, nil, 0o600)
+	case "cuthalf":
+		err = os.WriteFile(fn, b[:len(b)/2], 0o600)
+	case "cutlast":
+		err = os.WriteFile(fn, b[:len(b)-1], 0o600)
+	default:
+		hfail("unknown damage %q", f[2])
+	}
+	if err != nil {
+		hfail("%v", err)
+	}
+	w.damage = f[1] + ":" + f[2]
+	w.step(name, fmt.Sprintf("%s; %s had %d bytes", r, f[1], len(b)))
+	w.e.Close() // UTXO.db and the block index go to disk
+	w.closed = true
+	w.res.Restart = true
+}
+
 func (w *world) connect(name string, txs []*reftx.Tx) {
 	t := w.tip()
 	u := w.m.UTXOAt(t)
@@ -587,6 +654,9 @@ func (w *world) enabled() []string {
 			fmt.Sscan(e[7:], &v)
 			// only while the index is off, and only real changes
 			ok = !w.on && (e[4] == 'i' && v != w.cfgMin || e[4] == 'a' && uint32(v) != w.cfgMap)
+		}
+		if strings.HasPrefix(e, "restart:") {
+			ok = w.on
 		}
 		switch e {
 		case "spendOldest", "spendAll", "spendPay":
@@ -698,6 +768,10 @@ func (w *world) event(name string) {
 		w.step("saveload", r)
 		w.oracle("saveload")
 	default:
+		if strings.HasPrefix(name, "restart:") {
+			w.restart(name)
+			return
+		}
 		var v uint64
 		switch {
 		case strings.HasPrefix(name, "setmin:"):
@@ -869,6 +943,9 @@ func (w *world) oracle(after string) {
 	}
 	var recs []rec
 	wallet.Browse(func(typ int, _ wallet.OneAddrIndex, r *wallet.OneAllAddrBal) {
+		if r == nil {
+			panic(violation{"nil-balance-record/" + wallet.IDX2SYMB[typ], fmt.Sprintf("after %s: the %s map of the index holds a nil record", after, wallet.IDX2SYMB[typ])})
+		}
 		x := rec{typ: typ, ins: map[string]bool{}, count: r.Count(), value: r.Value}
 		r.Browse(func(i *wallet.OneAllAddrInp) {
 			b := *i
@@ -1078,13 +1155,38 @@ func runJob(job *Job) (res *Result) {
 		w.funding = append(w.funding, o)
 	}
 	lap("model built")
-	ev.CopyDir(job.Prefix+"/chain", w.dir+"/d")
+	var rf resumeFile
+	if job.Resume {
+		rb, err := os.ReadFile(w.dir + "/resume.json")
+		if err != nil {
+			hfail("%v", err)
+		}
+		if err := json.Unmarshal(rb, &rf); err != nil {
+			hfail("%v", err)
+		}
+		*res = rf.Res
+		res.Restart = false
+		for _, hx := range rf.Blocks {
+			b, _ := hex.DecodeString(hx)
+			n := w.m.Add(decodeBlock(b))
+			if n == nil || !w.m.Valid(n) {
+				hfail("reference refuses a block of the first part of the history")
+			}
+		}
+		w.blocks, w.pos = rf.Blocks, rf.Pos
+	} else {
+		ev.CopyDir(job.Prefix+"/chain", w.dir+"/d")
+	}
 	lap("dir copied")
 	w.e = minichain.Open(w.dir+"/d", &minichain.Opts{Params: params})
-	defer w.e.Close()
+	defer func() {
+		if !w.closed {
+			w.e.Close()
+		}
+	}()
 	lap("chain open")
 	if tip, _ := w.e.Tip(); tip != w.tip().Hash {
-		hfail("prefix directory tip differs from the reference")
+		hfail("chain directory tip differs from the reference")
 	}
 	// environment the client's init code would set up (common.InitConfig is not called)
 	common.GocoinHomeDir = w.dir + "/d/"
@@ -1095,13 +1197,52 @@ func runJob(job *Job) (res *Result) {
 	common.CFG.AllBalances.SaveBalances = true
 	common.BlockChain = w.e.Ch
 	common.Last.Block = w.e.Ch.LastBlock()
-	// the client starts the index with LoadBalancesFromUtxo (fetch_balances_now)
-	wallet.LoadBalancesFromUtxo()
-	w.on = true
-	lap("wallet loaded")
-	w.oracle("start")
-	lap("oracle(start)")
-	for _, name := range job.Events {
+	events := job.Events
+	if job.Resume {
+		// start-up of the client after the restart (client/main.go): configuration as saved,
+		// InitConfig applies the minimum value, LoadBalances, on error fetch_balances_now
+		common.LockCfg()
+		common.CFG.AllBalances.MinValue = rf.CfgMin
+		common.CFG.AllBalances.UseMapCnt = rf.CfgMap
+		common.UnlockCfg()
+		common.ApplyBalMinVal()
+		w.cfgMin, w.effMin, w.cfgMap = rf.CfgMin, rf.CfgMin, rf.CfgMap
+		how := "index loaded from the saved files"
+		if err := wallet.LoadBalances(); err != nil {
+			how = "LoadBalances: " + err.Error() + " -> LoadBalancesFromUtxo"
+			wallet.LoadBalancesFromUtxo()
+		} else {
+			w.saved = w.tip().Hash
+		}
+		w.on = true
+		w.step("start-up after restart", how)
+		if dmg := strings.SplitN(rf.Damage, ":", 2); len(dmg) == 2 && dmg[1] != "ok" && strings.HasPrefix(how, "index loaded") {
+			// LoadBalances accepted the saved index although one per-type file was damaged: if the
+			// index is then wrong, name the cause (kind of damage) in the key
+			func() {
+				defer func() {
+					if r := recover(); r != nil {
+						if v, ok := r.(violation); ok {
+							panic(violation{"restart/damaged-balance-file-accepted/" + dmg[1], fmt.Sprintf("LoadBalances returned nil although the saved %s file was damaged (%s), the index is switched on and wrong: %s", dmg[0], dmg[1], v.what)})
+						}
+						panic(r)
+					}
+				}()
+				w.oracle("start-up after restart")
+			}()
+		} else {
+			w.oracle("start-up after restart")
+		}
+		events = rf.Remaining
+	} else {
+		// the client starts the index with LoadBalancesFromUtxo (fetch_balances_now)
+		wallet.LoadBalancesFromUtxo()
+		w.on = true
+		lap("wallet loaded")
+		w.oracle("start")
+		lap("oracle(start)")
+	}
+	for i, name := range events {
 		ok := false
 		for _, e := range w.enabled() {
 			if e == name {
@@ -1116,6 +1257,14 @@ func runJob(job *Job) (res *Result) {
 			w.saved = w.tip().Hash
 		}
 		lap("event " + name)
+		if res.Restart { // the rest of the history runs in a fresh process
+			out := resumeFile{Blocks: w.blocks, Pos: w.pos + 1, CfgMin: w.cfgMin, CfgMap: w.cfgMap, Remaining: events[i+1:], Res: *res, Damage: w.damage}
+			rb, _ := json.Marshal(out)
+			if err := os.WriteFile(w.dir+"/resume.json", rb, 0o600); err != nil {
+				hfail("%v", err)
+			}
+			return res
+		}
 	}
 	res.StateKey = w.stateKey()
 	res.Enabled = w.enabled()
@@ -1181,6 +1330,17 @@ func runWorker(job *Job) *Result {
 	// dies inside gocoin (os.Exit, fatal error, watchdog kill)
 	job.Dir = ev.Scratch("c17w")
 	defer os.RemoveAll(job.Dir)
+	res := runProcess(job)
+	for n := 0; res.Restart && res.Key == "" && res.Harness == "" && n < 8; n++ {
+		// a restart event: the history continues in a fresh process on the same directory
+		j2 := *job
+		j2.Resume = true
+		res = runProcess(&j2)
+	}
+	return res
+}
+
+func runProcess(job *Job) *Result {
 	in, _ := json.Marshal(job)
 	cmd := exec.Command(os.Args[0], "--worker")
 	cmd.Env = append(os.Environ(), "GOMAXPROCS=1")
@@ -1474,6 +1634,18 @@ type script struct {
 }
 
 func scripts() (l []script) {
+	// restart: shutdown with SaveBalances, the file of ONE address type then missing / empty / cut
+	// in half / one byte short (or intact), start-up in a fresh process as client/main.go does it,
+	// then the history goes on; the index must equal the projection for every address
+	for _, focus := range []int{0, 3} { // P2PKH, P2WSH
+		for ti := 0; ti < wallet.IDX_CNT; ti++ {
+			for _, how := range []string{"rm", "cut0", "cuthalf", "cutlast"} {
+				l = append(l, script{focus, []string{"pay3", "pay1", fmt.Sprintf("restart:%s:%s", wallet.IDX2SYMB[ti], how), "pay1", "spendOldest", "spendAll"}})
+			}
+		}
+		l = append(l, script{focus, []string{"pay3", "pay1", "restart:P2KH:ok", "pay1", "spendOldest", "restart:P2WSH:ok", "spendAll"}},
+			script{focus, []string{"restart:P2SH:rm", "pay3", "restart:P2TAP:cut0", "spendAll"}})
+	}
 	// sparse: the index is BUILT (wallet on, off/on, save+load) over a set that holds partly spent
 	// multi-output transactions whose live outputs are not a vout prefix (only vout 7 / only vout 0 /
 	// vouts 3,6 / only vout 1 of nine), in the orders the UTXO map yields for several blocks of them
@@ -1523,7 +1695,7 @@ func (x *explorer) runScripts(l []script) {
 		go func(i int) {
 			defer wg.Done()
 			defer func() { <-x.sem }()
-			res[i] = x.exec(run{focus: l[i].focus, menu: menu}, l[i].events)
+			res[i] = x.exec(run{focus: l[i].focus, menu: append(append([]string{}, menu...), l[i].events...)}, l[i].events)
 		}(i)
 	}
 	wg.Wait()
@@ -1553,7 +1725,7 @@ func (x *explorer) runScripts(l []script) {
 		case t.Key != "":
 			ok := true
 			for k := 0; k < 2; k++ {
-				if again := x.run(run{focus: sc.focus, menu: menu}, sc.events); again.Key != t.Key {
+				if again := x.run(run{focus: sc.focus, menu: append(append([]string{}, menu...), sc.events...)}, sc.events); again.Key != t.Key {
 					ok = false
 				}
 			}
@@ -1692,7 +1864,7 @@ func main() {
 		"prefix_dirs_rebuilt":               x.rebuilt,
 		"worker_cpu_s":                      float64(atomic.LoadInt64(&workerCPU)/1e7) / 100,
 		"samples":                           x.samples.L,
-		"rule": "BFS over event histories per focus address type (P2PKH, P2SH, P2WPKH, P2WSH, P2TR, non-standard; all other types present as static background outputs) plus scripted histories (index built over partly spent 9-output transactions whose live outputs are sparse vouts; zero-value and at-minimum outputs to a used address under every minimum 0/999/1000/1001/100000/100001 and UseMapCnt 1/3/5, then the other outputs spent one by one, reorganisations, index built over the populated set; run first, not subject to the budget) and one configuration exploration (config/P2PKH: block/reorg events combined with setmin:<v> / setmap:<v> while the index is off, then LoadBalancesFromUtxo over the populated set; oracle = projection under the minimum in force); every history runs in a fresh worker process on a copy of a 105-block chain; " +
+		"rule": "BFS over event histories per focus address type (P2PKH, P2SH, P2WPKH, P2WSH, P2TR, non-standard; all other types present as static background outputs) plus scripted histories (restart = SaveBalances, one per-type file missing / empty / cut in half / one byte short, start-up in a fresh process as client/main.go does it (LoadBalances, on error LoadBalancesFromUtxo); index built over partly spent 9-output transactions whose live outputs are sparse vouts; zero-value and at-minimum outputs to a used address under every minimum 0/999/1000/1001/100000/100001 and UseMapCnt 1/3/5, then the other outputs spent one by one, reorganisations, index built over the populated set; run first, not subject to the budget) and one configuration exploration (config/P2PKH: block/reorg events combined with setmin:<v> / setmap:<v> while the index is off, then LoadBalancesFromUtxo over the populated set; oracle = projection under the minimum in force); every history runs in a fresh worker process on a copy of a 105-block chain; " +
 			"oracle after every delivered block / wallet switch for every address of the alphabet; state key = (index on/off, snapshot saved for tip, observed list/map representation, X's outputs in creation order with age class/tx index/vout/value, X-outputs spent by the two topmost blocks); " +
 			"type-symmetry reduction: full depth for the deep focus types, reduced depth for the others (per_focus.depth_target)",
 	}, []string{
@@ -1729,7 +1901,7 @@ func replay(x *explorer, file string) int {
 	if focus < 0 {
 		ev.HarnessError("unknown focus %q", rec.Replay.Focus)
 	}
-	res := x.run(run{focus: focus, menu: append(append(append([]string{}, allEvents...), "payzero", "payedge", "paymany", "spendsparse"), configEvents...)}, rec.Replay.Events)
+	res := x.run(run{focus: focus, menu: append(append(append([]string{}, allEvents...), "payzero", "payedge", "paymany", "spendsparse"), append(append([]string{}, configEvents...), rec.Replay.Events...)...)}, rec.Replay.Events)
 	for _, s := range res.Trace {
 		fmt.Fprintf(ev.Out, "  %s -> %s\n", s.Ev, s.Result)
 	}
